@@ -8,6 +8,7 @@ import Verif.C13.Lemmas
 import Verif.C13.LoaderLemmas
 import Verif.C13.LoaderRoundtrip
 import Verif.C13.MaskLemmas
+import Verif.C13.LinkLemmas
 
 namespace Verif.C13
 
@@ -172,6 +173,49 @@ theorem mask_alone_identity (eng : Eng) (f : Nat) (ops : List Op) (s : Str) (st 
     (hm : ∀ op ∈ ops, ∃ id, op = Op.mask id) (h : groupApply eng f ops s = some st) :
     lastOut st s = s ∧ ∀ x ∈ st, x.out = s ∧ x.sm = zeromap s ∧ x.em = zeromap s :=
   L.masks_only eng f ops s st hm h
+
+/-! ## the property's main clause on TEXT input
+
+`Link.applyText env E eng k f lines s` is the model of `REPP.from_file(path).apply(s, active)` /
+`REPP.from_string(text, modules=…).apply(s, active)`: the loader model on the lines (includes spliced
+by the file map, external modules loaded from their files), `Link.linkModule` (rule lines get their
+template parsed and split, `>n` becomes the iterative group of the body found in the module-global
+group table, `>name` the external module with its own operations and group table, active or not),
+then `Verif.C14.apply`. -/
+
+/-- Whenever the text loads and runs, the result string is the reference run of the operations
+linked from the text: rewrite rules in file order as global substitutions, each numbered group
+re-run to its fixpoint, external groups only when active. -/
+theorem apply_text_main (env : Loader.Env) (E : Link.LinkEnv) (eng : Eng) (k f : Nat) (lines : List Str) (s : Str)
+    (st : List Step) (res : Verif.C14.Result) (h : Link.applyText env E eng k f lines s = .ok (st, res)) :
+    ∃ m mods ops, Loader.loadLines env k lines = .ok (m, mods) ∧
+      Link.linkModule { E with mods := E.mods ++ mods } f m = .ok ops ∧
+      runGroup eng f ops s = some res.string :=
+  Link.L.applyText_main env E eng k f lines s st res h
+
+/-- "including files in place", on the whole pipeline: text with the line `<f` behaves on every input
+exactly as the text with f's lines spliced in (same result, same maps, same trace, or the same error). -/
+theorem apply_text_include (env : Loader.Env) (E : Link.LinkEnv) (eng : Eng) (f : Nat) (fn : Str) (fl : List Str)
+    (hd : env.hasDir = true) (hf : env.files (Loader.rstrip fn) = some fl) (pre post : List Str) (s : Str)
+    (r : Except Link.TErr (List Step × Verif.C14.Result)) (hr : r ≠ .error (.load .fuel)) :
+    (∃ k, Link.applyText env E eng k f (pre ++ ('<' :: fn) :: post) s = r)
+      ↔ (∃ k, Link.applyText env E eng k f (pre ++ fl ++ post) s = r) :=
+  Link.L.applyText_include env E eng f fn fl hd hf pre post s r hr
+
+/-- text ↔ tree: the module loaded from the rendered text of an operation tree behaves as the tree
+itself (`Link.applyTree`: a definition-with-call is the iterative group of its body, a further `>n`
+the iterative group of the body defined under that name anywhere in the module) — so everything
+proved about operation trees (`apply_eq_run`, `trace_chain`, C14's `provenance_program` …) holds of
+the text the harness gives to the real loader. -/
+theorem apply_text_of_tree (env : Loader.Env) (E : Link.LinkEnv) (eng : Eng) (f : Nat) (info tok : Option Str)
+    (nodes : List Loader.Node) (s : Str)
+    (hwf : Loader.wfNodes env.pre nodes = true)
+    (hnd : ((Loader.defsOfNodes nodes).map (·.1)).Nodup)
+    (hcalls : ∀ n ∈ Loader.callsOfNodes nodes, n ∈ (Loader.defsOfNodes nodes).map (·.1))
+    (hinfo : ∀ x, info = some x → Loader.rstrip x = x) (htok : ∀ x, tok = some x → Loader.rstrip x = x) :
+    ∃ k0, ∀ k, k0 ≤ k →
+      Link.applyText env E eng k f (Loader.renderModule info tok nodes) s = Link.applyTree E eng f nodes s :=
+  Link.L.applyText_render env E eng f info tok nodes s hwf hnd hcalls hinfo htok
 
 /-! ## programs WITH masks (outside the property's "module without masks"; Mask.lean models
 `_REPPMask._apply`, the blocking tests of `_process_match` and `_check_mask`)
